@@ -104,7 +104,7 @@ class ProgramGen(object):
                  'docstr_in_def', 'deepnest', 'unicode', 'starunpack', 'yieldgen', 'condexpr', 'withas', 'stdoutwrite',
                  'elifchain', 'commentbody', 'parenwith', 'tripledq', 'mlstr_trailing', 'raises_expected',
                  'raises_compound', 'markercomment', 'bscomment', 'padded', 'brblank', 'mlstr_wsline',
-                 'mlstr_hashclose', 'usepriv', 'sep_out', 'sep_literal',
+                 'mlstr_hashclose', 'mlstr_directive_text', 'usepriv', 'sep_out', 'sep_literal',
                  'deco_comment', 'else_comment', 'ml_semi', 'annot_effect']
 
     def __init__(self, rng, kinds=None, allow_async=True):
@@ -351,6 +351,11 @@ class ProgramGen(object):
             # the line that closes a string literal looks like a comment when read alone (finding F26)
             self.defined_vars.append('s%d' % i)
             return S(["s%d = '''echo %d" % (i, i), "# done'''; quiet(%d)" % i], k, i, is_expr=True)
+        if k == 'mlstr_directive_text':
+            # lines of a string literal that read like directive comments: they are text, the statement runs
+            self.defined_vars.append('s%d' % i)
+            return S(["s%d = '''usage %d:" % (i, i), r.choice(['# doctest: +SKIP', '# xdoctest: +SKIP', '#xdoc: +REQUIRES(module:xv_nx_mod_zz)']),
+                      "end'''; quiet(%d)" % i], k, i, is_expr=True)
         if k == 'mlstr_wsline':
             # a line of blanks only inside a string literal: the blanks are part of the value
             self.defined_vars.append('s%d' % i)
@@ -482,7 +487,7 @@ class Layout(object):
         """prompt-prefixed lines of one statement, list of (text, label)"""
         rng = self.rng
         style = style or rng.choice(self.styles)
-        if st.kind in ('tripledq', 'mlstr_trailing', 'mlstr_wsline', 'mlstr_hashclose'):
+        if st.kind in ('tripledq', 'mlstr_trailing', 'mlstr_wsline', 'mlstr_hashclose', 'mlstr_directive_text'):
             style = 'ps2'
         out = []
         for li, line in enumerate(st.lines):
